@@ -123,6 +123,23 @@ def h_none_ids(ctx, H, P):
     eval("H." + call, {"H": H, "a": a, "e": e, "e2": e2})
 
 
+def h_add_edges_from_iter(ctx, H, P):
+    """Members given as one-shot iterators (documented: any iterable)."""
+    a, b = ctx.fresh(), ctx.fresh()
+    fmt = ctx.choose("fmt", 4)
+    i = ctx.fresh("i")
+    _rec(ctx, members=[a, b], fmt=["add_edge", 1, 2, 5][fmt], idx=i)
+    ctx.info["expect_members"] = set([a, b])
+    if fmt == 0:
+        H.add_edge(iter([a, b]), idx=i)
+    elif fmt == 1:
+        H.add_edges_from([iter([a, b])])
+    elif fmt == 2:
+        H.add_edges_from([(iter([a, b]), i)])
+    else:
+        H.add_edges_from({i: iter([a, b])})
+
+
 def h_add_edge_stridx(ctx, H, P):
     mem = _members(ctx, 2)
     _rec(ctx, members=mem, idx="edge-s")
@@ -314,6 +331,7 @@ OPS_H = {
         h_add_edge,
         h_add_edge_none,
         h_add_edges_from_none,
+        h_add_edges_from_iter,
         h_none_ids,
         h_add_edge_stridx,
         h_add_edges_from_1,
@@ -345,10 +363,10 @@ OPS_H = {
 ADD_ONLY = {
     "add_node", "add_nodes_from", "add_nodes_from_attr", "add_edge", "add_edge_none", "add_edge_stridx",
     "add_edges_from_none", "add_edges_from_1", "add_edges_from_2", "add_edges_from_3", "add_edges_from_4",
-    "add_edges_from_5", "add_weighted_edges_from", "update", "add_simplex", "add_simplex_none",
+    "add_edges_from_5", "add_weighted_edges_from", "update", "add_simplex", "add_simplex_none", "add_edges_from_iter",
     "add_simplices_from_1", "add_simplices_from_2", "add_simplices_from_3", "add_simplices_from_4",
     "add_simplices_from_5", "add_weighted_simplices_from", "dep_add_edge", "dep_add_edges_from",
-    "add_simplices_from_maxorder",
+    "add_simplices_from_maxorder", "add_simplices_from_iter",
 }
 
 HEAVY_H = {
@@ -414,6 +432,21 @@ def d_add_edge(ctx, D, P):
     _rec(ctx, members=mem, idx=idx, attr=v)
     ctx.info["expect_edge"] = (idx, (set(mem[0]), set(mem[1])))
     D.add_edge(mem, idx=idx, k=v)
+
+
+def d_add_edges_from_iter(ctx, D, P):
+    a, b = ctx.fresh(), ctx.fresh()
+    fmt = ctx.choose("fmt", 4)
+    i = ctx.fresh("i")
+    _rec(ctx, tail=[a], head=[b], fmt=["add_edge", 1, 2, 5][fmt], idx=i)
+    if fmt == 0:
+        D.add_edge((iter([a]), iter([b])), idx=i)
+    elif fmt == 1:
+        D.add_edges_from([(iter([a]), iter([b]))])
+    elif fmt == 2:
+        D.add_edges_from([((iter([a]), iter([b])), i)])
+    else:
+        D.add_edges_from({i: (iter([a]), iter([b]))})
 
 
 def d_add_edge_none(ctx, D, P):
@@ -578,6 +611,7 @@ OPS_D = {
         d_remove_nodes_from,
         d_add_edge,
         d_add_edge_none,
+        d_add_edges_from_iter,
         d_none_ids,
         d_add_edges_from_1,
         d_add_edges_from_2,
@@ -692,6 +726,21 @@ def s_add_simplices_from_maxorder(ctx, S, P):
         S.add_simplices_from({i: mem}, max_order=mo)
 
 
+def s_add_simplices_from_iter(ctx, S, P):
+    a, b, c = ctx.fresh(), ctx.fresh(), ctx.fresh()
+    fmt = ctx.choose("fmt", 4)
+    i = ctx.fresh("i")
+    _rec(ctx, members=[a, b, c], fmt=["add_simplex", 1, 2, 5][fmt], idx=i)
+    if fmt == 0:
+        S.add_simplex(iter([a, b, c]), idx=i)
+    elif fmt == 1:
+        S.add_simplices_from([iter([a, b, c])])
+    elif fmt == 2:
+        S.add_simplices_from([(iter([a, b, c]), i)])
+    else:
+        S.add_simplices_from({i: iter([a, b, c])})
+
+
 def s_add_weighted_simplices_from(ctx, S, P):
     eb = [tuple(m) + (ctx.fresh("v"),) for m in _sbulk(ctx, P)]
     mo = _max_order(ctx, P)
@@ -793,6 +842,7 @@ OPS_S = {
         s_add_simplices_from_5,
         s_add_weighted_simplices_from,
         s_add_simplices_from_maxorder,
+        s_add_simplices_from_iter,
         s_remove_simplex_id,
         s_remove_simplex_ids_from,
         s_remove_node,
